@@ -135,6 +135,18 @@ def run(tier, seed):
             flip[idx] *= -1
             log.add("same", "melody.raw_pitch+chroma", rawboth(ef), rawboth(flip),
                     {"what": "estimated frequencies negated (unvoiced)", "ref_freq": rf.tolist(), "est_freq": ef.tolist(), "flipped": idx})
+            # ... also when the voicing is given explicitly (est_voicing): the sign then carries nothing at all, the magnitude is the pitch
+            evx = np.array([rng.choice([0.0, 0.25, 1.0, 1.0]) for _ in ef])
+
+            def rawboth_v(est):
+                bf = {k: v for k, v in mkw.items() if k == "base_frequency"}
+                return call(lambda: (me.melody.raw_pitch_accuracy(*me.melody.to_cent_voicing(rt, rf, et, est, est_voicing=evx.copy(), **bf)),
+                                     me.melody.raw_chroma_accuracy(*me.melody.to_cent_voicing(rt, rf, et, est, est_voicing=evx.copy(), **bf))))
+            flip2 = ef.copy()
+            idx2 = [i for i in range(len(ef)) if ef[i] > 0 and rng.random() < 0.6]
+            flip2[idx2] *= -1
+            log.add("same", "melody.raw_pitch+chroma", rawboth_v(ef), rawboth_v(flip2),
+                    {"what": "estimated frequencies negated, explicit est_voicing", "ref_freq": rf.tolist(), "est_freq": ef.tolist(), "flipped": idx2, "est_voicing": evx.tolist()})
         # multipitch (window 0.74: no pitch difference sits on the threshold)
         mt, mrf, met, mef = gen.gen_multipitch(rng, shape)
         base = call(me.multipitch.metrics, mt, mrf, met, mef, window=0.74)
